@@ -120,8 +120,8 @@ func c09Streams(c *Ctx) {
 	nw := c09NW(c)
 	w := newC09Watch(c, nw)
 	defer w.stop.Store(true)
-	nScripts := c.N(20000, 1500000)
-	nEnc := c.N(4000, 300000)
+	nScripts := c.N(60000, 1500000)
+	nEnc := c.N(8000, 300000)
 	var wg sync.WaitGroup
 	for wk := 0; wk < nw; wk++ {
 		wg.Add(1)
